@@ -295,13 +295,14 @@ def named_const(eng, st, fr, c):
         if ic is not None:
             return eng.const_value(st, fr, ic[1])
     # constants defined in the loaded crates: evaluate their MIR body
-    for cr in eng.prog.crates.values():
-        for f in cr.by_last.get(segs[-1], []):
-            if f.kind == 'const' and (len(segs) == 1 or all(s in f.name for s in segs[-2:-1]) or cr.name.replace('-', '_') in segs):
-                try:
-                    return eng.eval_const_body(st, f)
-                except MirError:
-                    return None
+    cands = [(cr, f) for cr in eng.prog.crates.values() for f in cr.by_last.get(segs[-1], []) if f.kind == 'const']
+    if len(cands) > 1:
+        cands = [(cr, f) for cr, f in cands if len(segs) == 1 or all(s in f.name for s in segs[-2:-1]) or cr.name.replace('-', '_') in segs]
+    for cr, f in cands[:1]:                 # the MIR dump prints constant items without their module path: a unique last segment identifies the item
+        try:
+            return eng.eval_const_body(st, f)
+        except MirError:
+            return None
     return None
 
 
@@ -427,8 +428,17 @@ def m_map_err(eng, st, call):
     return out
 
 
+def outer_kind(fn, name=None):
+    """'Option' / 'Result': the type the method is called on (the OUTER type: Result<Option<T>, E>::map is a Result method)"""
+    m = re.search(r'(Option|Result)::<', fn)
+    if m:
+        return m.group(1)
+    head = fn.split('::' + name)[0] if name else fn
+    return 'Option' if 'Option' in head else 'Result'
+
+
 def m_map(eng, st, call):
-    kind = 'Option' if 'Option' in call.fn.split('::map')[0] else 'Result'
+    kind = outer_kind(call.fn, 'map')
     out = []
     for s2, vn, p in split_enum(eng, st, call.args[0], kind):
         if vn in ('Some', 'Ok'):
@@ -440,7 +450,7 @@ def m_map(eng, st, call):
 
 
 def m_and_then(eng, st, call):
-    kind = 'Option' if 'Option' in call.fn.split('::and_then')[0] else 'Result'
+    kind = outer_kind(call.fn, 'and_then')
     out = []
     for s2, vn, p in split_enum(eng, st, call.args[0], kind):
         if vn in ('Some', 'Ok'):
@@ -730,6 +740,8 @@ STD_MODELS = [
     (R(r'Option::<&.*>::(cloned|copied)$'), m_cloned),
     (R(r' as (std::clone::)?Clone>::clone$'), m_clone),
     (R(r' as (std::ops::)?(Deref|DerefMut)>::(deref|deref_mut)$'), m_deref),
+    (R(r'^(std::vec::|alloc::vec::)?Vec::<.*>::(as_slice|as_mut_slice)$'), m_deref),
+    (R(r'^(std::string::|alloc::string::)?String::(as_str|as_mut_str)$'), m_deref),
     (R(r' as (std::convert::)?AsRef<.*>>::as_ref$'), m_deref),
     (R(r' as (std::borrow::)?Borrow<.*>>::borrow$'), m_deref),
     (R(r' as (std::cmp::)?PartialEq(<.*>)?>::(eq|ne)$'), m_eq),
@@ -738,7 +750,7 @@ STD_MODELS = [
     (R(r'Mutex::<.*>::new$'), m_mutex_new),
     (R(r' as (Into|From)<.*>>::(into|from)$'), m_into),
     (R(r'^(core|std)::panicking::|::panic_fmt|::unreachable_display|::panic_cold|begin_panic|::panic_explicit|::unwrap_failed|::expect_failed'), m_panic),
-    (R(r'^<(u8|u16|u32|u64|usize|i8|i16|i32|i64|isize|nostr::Timestamp|Timestamp|nostr::types::time::Timestamp) as (Ord|PartialOrd)>::(cmp|partial_cmp|lt|le|gt|ge)$'), m_cmp_int),
+    (R(r'^<(u8|u16|u32|u64|usize|i8|i16|i32|i64|isize|nostr::Timestamp|Timestamp|nostr::types::time::Timestamp) as (std::cmp::|core::cmp::)?(Ord|PartialOrd)(<[^>]*>)?>::(cmp|partial_cmp|lt|le|gt|ge)$'), m_cmp_int),
     (R(r'num::<impl (u8|u16|u32|u64|usize)>::(saturating_sub|saturating_add|wrapping_add|wrapping_sub)$'), m_saturating),
     (R(r'^(std::cmp::|core::cmp::)?(min|max)::<(u8|u16|u32|u64|usize)>$'), m_saturating),
     (R(r'num::<impl (u8|u16|u32|u64|usize)>::(checked_add|checked_sub|checked_mul)$'), m_checked),
@@ -1103,6 +1115,75 @@ def _drive_custom(eng, st, a_iter, clo_call, step):
     return results
 
 
+def m_map_or(eng, st, call):
+    """Option/Result::map_or(default, f) and map_or_else(default_fn, f)"""
+    name = method_name(call.fn)
+    kind = outer_kind(call.fn, name)
+    out = []
+    for s2, vn, p in split_enum(eng, st, call.args[0], kind):
+        if vn in ('Some', 'Ok'):
+            out.extend(call_closure(eng, s2, call.args[2], [p]))
+        elif name == 'map_or':
+            out.append((s2, call.args[1]))
+        else:
+            out.extend(call_closure(eng, s2, call.args[1], [] if kind == 'Option' else [p]))
+    return out
+
+
+def m_result_or_else(eng, st, call):
+    out = []
+    for s2, vn, p in split_enum(eng, st, call.args[0], 'Result'):
+        if vn == 'Ok':
+            out.append((s2, OK(p)))
+        else:
+            out.extend(call_closure(eng, s2, call.args[1], [p]))
+    return out
+
+
+def m_opt_filter(eng, st, call):
+    out = []
+    for s2, vn, p in split_enum(eng, st, call.args[0], 'Option'):
+        if vn != 'Some':
+            out.append((s2, NONE())); continue
+        for s3, r in call_closure(eng, s2, call.args[1], [Ref(s2.temp(p), ())]):
+            for s4, b in bool_cases(eng, s3, r):
+                out.append((s4, SOME(p) if b else NONE()))
+    return out
+
+
+def m_bool_then(eng, st, call):
+    name = method_name(call.fn)
+    out = []
+    for s2, b in bool_cases(eng, st, call.args[0]):
+        if not b:
+            out.append((s2, NONE()))
+        elif name == 'then_some':
+            out.append((s2, SOME(call.args[1])))
+        else:
+            for s3, r in call_closure(eng, s2, call.args[1], []):
+                out.append((s3, SOME(r)))
+    return out
+
+
+def m_transpose(eng, st, call):
+    """Option<Result<T, E>>::transpose -> Result<Option<T>, E>"""
+    out = []
+    for s2, vn, p in split_enum(eng, st, call.args[0], 'Option'):
+        if vn != 'Some':
+            out.append((s2, OK(NONE()))); continue
+        for s3, vn2, q in split_enum(eng, s2, p, 'Result'):
+            out.append((s3, OK(SOME(q)) if vn2 == 'Ok' else ERR(q)))
+    return out
+
+
+STD_MODELS += [
+    (R(r'(Option|Result)::<.*>::(map_or|map_or_else)::<'), m_map_or),
+    (R(r'Result::<.*>::or_else::<'), m_result_or_else),
+    (R(r'Option::<.*>::filter::<'), m_opt_filter),
+    (R(r'bool>?::(then|then_some)::<'), m_bool_then),
+    (R(r'Option::<(std::result::|core::result::)?Result<.*>::transpose$'), m_transpose),
+]
+
 STD_MODELS += [
     (R(r'Option::<.*>::or_else::<'), m_or_else),
     (R(r'Option::<.*>::or$'), m_or),
@@ -1396,10 +1477,16 @@ def m_seq(eng, st, call):
     if name in ('iter', 'iter_mut'):
         return [(st, IterV([Ref(r.loc, r.path + (('i', k),), name == 'iter_mut') for k in range(len(v.items))], 'ref'))]
     if name == 'split_off':
-        k = eng.concrete_int(st, call.args[1])
-        tail = v.items[k:]
-        del v.items[k:]
-        return [(st, SeqV(tail, v.ty))]
+        out = []
+        from .engine import Panic
+        for s2, k in int_cases(eng, st, call.args[1], len(v.items)):
+            if k is None:
+                out.append((s2, Panic('split_off: `at` out of bounds'))); continue
+            seq = eng.read(s2, r.loc, r.path)
+            tail = seq.items[k:]
+            del seq.items[k:]
+            out.append((s2, SeqV(tail, v.ty)))
+        return out
     if name == 'clear':
         v.items.clear(); return [(st, UNIT())]
     if name in ('first', 'front'):
@@ -1417,7 +1504,13 @@ def m_seq(eng, st, call):
         x = deref_all(eng, st, call.args[1])
         return [(st, z3.Or([val_eq(eng, y, x) for y in v.items]) if v.items else z3.BoolVal(False))]
     if name == 'truncate':
-        k = eng.concrete_int(st, call.args[1]); del v.items[k:]; return [(st, UNIT())]
+        out = []
+        for s2, k in int_cases(eng, st, call.args[1], len(v.items)):
+            if k is not None:
+                seq = eng.read(s2, r.loc, r.path)
+                del seq.items[k:]
+            out.append((s2, UNIT()))
+        return out
     if name == 'remove':
         k = eng.concrete_int(st, call.args[1])
         if k >= len(v.items):
@@ -1425,6 +1518,23 @@ def m_seq(eng, st, call):
             return [(st, Panic('remove index out of bounds'))]
         return [(st, v.items.pop(k))]
     return None
+
+
+def int_cases(eng, st, x, n):
+    """[(state, k)] for k in 0..n plus (state, None) for x > n: case split of a (possibly symbolic) index against a concrete-shape length n"""
+    if isinstance(x, int):
+        return [(st, x if x <= n else None)]
+    xs = z3.simplify(x)
+    if z3.is_bv_value(xs):
+        k = xs.as_long()
+        return [(st, k if k <= n else None)]
+    res = []
+    for k in range(n + 1):
+        if eng.feasible(st, x == k):
+            s2 = st.clone(); eng.assume(s2, x == k); res.append((s2, k))
+    if eng.feasible(st, z3.UGT(x, n)):
+        s2 = st.clone(); eng.assume(s2, z3.UGT(x, n)); res.append((s2, None))
+    return res
 
 
 def m_seq_index(eng, st, call):
@@ -1640,6 +1750,68 @@ def m_sort_by(eng, st, call):
     return [(s, UNIT()) for s in states]
 
 
+def _key_cmp_lt(eng, st, ka, kb):
+    """(a < b, a == b) for two sort keys: unsigned scalars / newtypes / tuples (lexicographic); std::cmp::Reverse(x) inverts the order of x"""
+    ka, kb = deref_all(eng, st, ka), deref_all(eng, st, kb)
+    if isinstance(ka, Agg) and isinstance(kb, Agg) and last_seg(str(ka.ty or '')).startswith('Reverse') and len(ka.fields) == 1:
+        lt, eq = _key_cmp_lt(eng, st, kb.fields[0], ka.fields[0])
+        return lt, eq
+    if isinstance(ka, Agg) and ka.kind == 'tuple' and isinstance(kb, Agg) and len(ka.fields) == len(kb.fields):
+        lts, eqs = [], []
+        for x, y in zip(ka.fields, kb.fields):
+            l, e = _key_cmp_lt(eng, st, x, y)
+            lts.append(z3.And(*eqs, l) if eqs else l)
+            eqs.append(e)
+        return (z3.Or(lts) if lts else z3.BoolVal(False)), (z3.And(eqs) if eqs else z3.BoolVal(True))
+    pa, pb = _key_parts(eng, st, ka), _key_parts(eng, st, kb)
+    return _lex_lt(pa, pb), z3.And([x == y for x, y in zip(pa, pb)]) if pa else z3.BoolVal(True)
+
+
+def m_cmp_tuple(eng, st, call):
+    """<(A, B, ..) as Ord>::cmp and friends: lexicographic over the components (unsigned scalars / newtypes such as Timestamp, EventId)"""
+    name = method_name(call.fn)
+    try:
+        lt, eq = _key_cmp_lt(eng, st, call.args[0], call.args[1])
+    except MirError:
+        return None
+    o = z3.If(lt, z3.BitVecVal(-1, 8), z3.If(eq, z3.BitVecVal(0, 8), z3.BitVecVal(1, 8)))
+    if name == 'cmp':
+        return [(st, o)]
+    if name == 'partial_cmp':
+        return [(st, SOME(o))]
+    return [(st, {'lt': lt, 'le': z3.Or(lt, eq), 'gt': z3.Not(z3.Or(lt, eq)), 'ge': z3.Not(lt)}[name])]
+
+
+def m_sort_by_key(eng, st, call):
+    """slice::sort_by_key / sort_by_cached_key (stable): insertion sort on the keys the closure returns (forks on every comparison)"""
+    r, v = _cont(eng, st, call.args[0], SeqV)
+    if v is None:
+        return None
+    clo = call.args[1]
+    n = len(v.items)
+    states = [st]
+    for i in range(1, n):
+        nxt_states = []
+        for s in states:
+            work = [(s, i)]
+            while work:
+                s1, j = work.pop()
+                if j == 0:
+                    nxt_states.append(s1); continue
+                for s2, ka in call_closure(eng, s1, clo, [Ref(r.loc, r.path + (('i', j - 1),))]):
+                    for s3, kb in call_closure(eng, s2, clo, [Ref(r.loc, r.path + (('i', j),))]):
+                        lt, _eq = _key_cmp_lt(eng, s3, kb, ka)          # strictly smaller key moves in front (stable)
+                        for s4, swap in bool_cases(eng, s3, lt):
+                            if swap:
+                                seq = eng.read(s4, r.loc, r.path)
+                                seq.items[j - 1], seq.items[j] = seq.items[j], seq.items[j - 1]
+                                work.append((s4, j - 1))
+                            else:
+                                nxt_states.append(s4)
+        states = nxt_states
+    return [(s, UNIT()) for s in states]
+
+
 def m_index_range(eng, st, call):
     """<Vec<T>/[T] as Index<Range<usize>>>::index: symbolic bounds are case-split over 0..=len; out-of-order / out-of-range bounds panic"""
     from .engine import Panic
@@ -1736,6 +1908,8 @@ STD_MODELS[:0] = [
     (R(r'^(std::cmp::|core::cmp::)?Ordering::then_with::<'), m_then_with),
     (R(r'^(std::cmp::|core::cmp::)?Ordering::(reverse|then|is_lt|is_le|is_gt|is_ge|is_eq|is_ne)$'), m_ordering_misc),
     (R(r'slice::<impl \[.*\]>::(sort_by|sort_unstable_by)::<'), m_sort_by),
+    (R(r'slice::<impl \[.*\]>::(sort_by_key|sort_by_cached_key|sort_unstable_by_key)::<'), m_sort_by_key),
+    (R(r'^<\(.*\) as (std::cmp::|core::cmp::)?(Ord|PartialOrd)(<.*>)?>::(cmp|partial_cmp|lt|le|gt|ge)$'), m_cmp_tuple),
     (R(r' as (std::ops::)?Index<(std::ops::)?Range<usize>>>::index$'), m_index_range),
     (R(r'(Vec|VecDeque)::<.*>::drain::<'), m_seq_drain),
     (R(r'^<([\w:]*::)?(EventId|Timestamp) as (std::cmp::)?(Ord|PartialOrd)>::(cmp|partial_cmp|lt|le|gt|ge)$'), m_cmp_int),
